@@ -42,7 +42,11 @@ type MessageIntegrity []byte
 
 func newHMAC(key, message, buf []byte) []byte {
 	mac := hmac.AcquireSHA1(key)
-	writeOrPanic(mac, message)
+	// Not writeOrPanic: converting mac to io.Writer allocates a runtime
+	// type-assertion cache entry at an unpredictable call.
+	if _, err := mac.Write(message); err != nil {
+		panic(err) //nolint
+	}
 	defer hmac.PutSHA1(mac)
 
 	return mac.Sum(buf)
